@@ -166,6 +166,8 @@ func runSpecial(name, prop string, seed int64, n int, drvPath, widths, outPath, 
 		specialResizeIdle(c)
 	case "spanline":
 		specialSpanLine(c)
+	case "spanscreen":
+		specialSpanScreen(c)
 	default:
 		fmt.Println("unknown special check", name)
 		return 2
